@@ -136,6 +136,7 @@ func (x *runner) enc(arg string) string {
 		return "err" + vx
 	}
 	x.r.Count("enc:ok")
+	countMaps(x.r, top, v)
 	doc, err := parseJSON(js)
 	if err != nil {
 		x.r.Fail("json-wellformed", fmt.Sprintf("JSONEncode produced %q: %v", js, err), map[string]string{"oracle": "json-wellformed"})
@@ -213,6 +214,59 @@ func floatTable(doc *J) string {
 	walk(doc)
 
 	return sb.String()
+}
+
+// countMaps records, per element kind, the Go-map values with at least two entries that were encoded (these are
+// the ones on which state leaking from one decoded entry into the next would show).
+func countMaps(r *hx.Run, s *S, v *V) {
+	if s == nil || v == nil {
+		return
+	}
+	switch s.K {
+	case "map":
+		if v.K == "m" {
+			if len(v.M) >= 2 {
+				k := s.E.K
+				if k == "struct" {
+					for _, f := range s.E.Fields {
+						if f.Opt || f.Omit {
+							k = "struct-with-optional"
+						}
+					}
+				}
+				r.Count("map>=2:" + k)
+			}
+			for _, e := range v.M {
+				countMaps(r, s.E, e[1])
+			}
+		}
+	case "slice", "arr":
+		if v.K == "l" {
+			for _, e := range v.L {
+				countMaps(r, s.E, e)
+			}
+		}
+	case "struct":
+		if v.K == "st" && len(v.L) == len(s.Fields) {
+			for i, f := range s.Fields {
+				e := v.L[i]
+				if f.Mode == "emb" && f.P {
+					e = e.X
+				}
+				countMaps(r, f.T, e)
+			}
+		}
+	case "ptr":
+		countMaps(r, s.E, v.X)
+	case "iface":
+		if v.K == "if" {
+			for _, a := range s.Alts {
+				if a.Code == v.Code {
+					countMaps(r, a.T, v.X)
+				}
+			}
+		}
+	}
 }
 
 func nontrivial(v *V) bool {
